@@ -20,10 +20,10 @@ cryptography.
   `MakeSecretConnection` (ephemeral key exchange, low-order blacklist, sort32 /
   locIsLeast, key split, challenge signature, auth-sig exchange over the fresh
   connection, verification) are mirrored statement by statement.
-* The frame padding is whatever the pooled buffer held (`pool.Get` does not zero;
-  observed on the real code: the bytes after a short chunk are stale plaintext of
-  earlier frames).  It is an explicit input `pad` of `write`; no theorem depends
-  on its value.
+* The frame padding behind a short chunk is zero: `Write` clears it
+  (`clear(frame[dataLenSize+chunkLength:])`).  Until /repo commit 90b41c9888 the
+  pooled buffer was sent as it was — stale plaintext of earlier frames, also of
+  OTHER connections (known_findings/C42.json, corpus/C42/padding.ops).
 
 Constants come from `Gen/C42.lean` (regenerated from the source on every run).
 -/
@@ -112,12 +112,9 @@ decreasing_by
   have : 0 < dataMaxSize := by decide
   omega
 
-/-- the first `n` bytes of `pad ‖ 00 00 …` — what the pooled buffer held after the chunk -/
-def padTo (n : Nat) (pad : Bytes) : Bytes := (pad ++ List.replicate n 0).take n
-
-/-- `frame`: 4-byte little-endian chunk length, the chunk, stale padding up to 1028 bytes -/
-def mkFrame (chunk pad : Bytes) : Bytes :=
-  leBytes dataLenSize chunk.length ++ chunk ++ padTo (dataMaxSize - chunk.length) pad
+/-- `frame`: 4-byte little-endian chunk length, the chunk, zero padding up to 1028 bytes -/
+def mkFrame (chunk : Bytes) : Bytes :=
+  leBytes dataLenSize chunk.length ++ chunk ++ List.replicate (dataMaxSize - chunk.length) 0
 
 structure WriteOut where
   sc : SC
@@ -129,17 +126,17 @@ structure WriteOut where
   panicked : Bool
   deriving Repr, DecidableEq
 
-def writeFrames (A : AEAD) (pad : Bytes) : List Bytes → SC → Bytes → Nat → WriteOut
+def writeFrames (A : AEAD) : List Bytes → SC → Bytes → Nat → WriteOut
   | [], sc, wire, n => ⟨sc, wire, n, false⟩
   | chunk :: rest, sc, wire, n =>
-    let sealed := A.doSeal sc.sendKey sc.sendNonce (mkFrame chunk pad)
+    let sealed := A.doSeal sc.sendKey sc.sendNonce (mkFrame chunk)
     match incrNonce sc.sendNonce with
     | none => ⟨sc, wire, n, true⟩
-    | some nn => writeFrames A pad rest { sc with sendNonce := nn } (wire ++ sealed) (n + chunk.length)
+    | some nn => writeFrames A rest { sc with sendNonce := nn } (wire ++ sealed) (n + chunk.length)
 
 /-- `(*SecretConnection).Write(data)` -/
-def write (A : AEAD) (pad : Bytes) (sc : SC) (data : Bytes) : WriteOut :=
-  writeFrames A pad (chunksOf data) sc [] 0
+def write (A : AEAD) (sc : SC) (data : Bytes) : WriteOut :=
+  writeFrames A (chunksOf data) sc [] 0
 
 /-! ### Read -/
 
@@ -202,11 +199,11 @@ def readMany (A : AEAD) : SC → Bytes → List Nat → SC × Bytes × List Byte
       let (sc', conn', ds, e) := readMany A r.sc r.conn rest
       (sc', conn', r.data :: ds, e)
 
-/-- a sequence of `Write` calls `(data, pad)`; stops at a panic -/
-def writeMany (A : AEAD) : SC → List (Bytes × Bytes) → SC × Bytes × Bool
+/-- a sequence of `Write` calls; stops at a panic -/
+def writeMany (A : AEAD) : SC → List Bytes → SC × Bytes × Bool
   | sc, [] => (sc, [], false)
-  | sc, (data, pad) :: rest =>
-    let w := write A pad sc data
+  | sc, data :: rest =>
+    let w := write A sc data
     if w.panicked then (w.sc, w.wire, true)
     else
       let (sc', wire', p) := writeMany A w.sc rest
@@ -392,13 +389,13 @@ def deriveSecrets (okm : Bytes) (least : Bool) : Bytes × Bytes × Bytes :=
 /-- the second half of `MakeSecretConnection`, once the secrets are derived: build the
     connection, sign the challenge, exchange the auth messages over it, verify.
     `w1` = what was already written, `conn` = incoming bytes still in flight. -/
-def authenticate (P : Prims) (A : AEAD) (pad locPriv w1 conn : Bytes)
+def authenticate (P : Prims) (A : AEAD) (locPriv w1 conn : Bytes)
     (recvSecret sendSecret challenge : Bytes) : HsOut :=
   let locPub := P.pubKey locPriv
   let sc : SC := ⟨sendSecret, recvSecret, nonceOf 0, nonceOf 0, [], []⟩
   let locSignature := P.sign locPriv challenge
   -- shareAuthSignature
-  let w := write A pad sc (encAuth locPub locSignature)
+  let w := write A sc (encAuth locPub locSignature)
   if w.panicked then ⟨w1 ++ w.wire, conn, .error .panicNonce, challenge⟩ else
   match readSized A ⟨some w.sc, conn⟩ with
   | (r2, .error e) => ⟨w1 ++ w.wire, r2.conn, .error (.authRead e), challenge⟩
@@ -414,7 +411,7 @@ def authenticate (P : Prims) (A : AEAD) (pad locPriv w1 conn : Bytes)
 
 /-- `MakeSecretConnection(conn, locPrivKey)` with the ephemeral private key that
     `genEphKeys` drew, on a connection whose incoming queue holds `incoming`. -/
-def makeSecretConnection (P : Prims) (A : AEAD) (pad : Bytes)
+def makeSecretConnection (P : Prims) (A : AEAD)
     (locPriv locEphPriv : Bytes) (incoming : Bytes) : HsOut :=
   let locEphPub := P.ephPub locEphPriv
   let w1 := encEph locEphPub
@@ -431,6 +428,6 @@ def makeSecretConnection (P : Prims) (A : AEAD) (pad : Bytes)
       | none => ⟨w1, r1.conn, .error .dh, []⟩
       | some dhSecret =>
         let s := deriveSecrets (P.kdf dhSecret) least
-        authenticate P A pad locPriv w1 r1.conn s.1 s.2.1 s.2.2
+        authenticate P A locPriv w1 r1.conn s.1 s.2.1 s.2.2
 
 end GnoVerif.C42
